@@ -4,6 +4,8 @@ CFG = {
     "level": "proof",
     "streams": [
         {"mod": "extras", "component": "sniff", "driver": "sniff", "n": {"quick": 5000, "thorough": 60000}},
+        # n = batches of 6 concurrent end-to-end cases (real server + real Sniffer + recording outbound + real client)
+        {"mod": "extras", "component": "sniffe2e", "driver": "sniff", "n": {"quick": 8, "thorough": 60}},
     ],
     "rule": "Sniffer.TCP on a scripted HyStream (valid HTTP requests with header blocks from a few bytes to > 256 KiB and Host = "
             "name / name:port / v4 / [v6] / [v6]:port / absent / absolute-URI / malformed; TLS ClientHello records (the suite's sample "
@@ -15,7 +17,11 @@ CFG = {
             "truncation at every offset, a bit flip at every offset, short-header and other long-header types, version and length-field "
             "games, random and empty datagrams; op `two`: 2-4 streams (every HTTP/TLS/unrecognised combination) through ONE Sniffer in "
             "sequence, every returned replay slice kept uncopied and all oracles evaluated after the last stream (shared/pooled buffer "
-            "aliasing). distinct = distinct op line; non-trivial = the 3-byte probe completed (TCP) or the header "
+            "aliasing). Stream `sniffe2e`: batches of 6 concurrent END-TO-END cases - real core/server with the real Sniffer as RequestHook and a "
+            "recording Outbound, real core/client over loopback; HTTP / TLS / garbage first bytes followed by up to 70 kB more payload, "
+            "1-4 client writes with a pause of 2.5x the sniff timeout before a chosen write (incl. before the first, inside the header / "
+            "record, after it), slow dials, hooked and unhooked destinations; QUIC Initials (suite sample, built, random) + a second "
+            "datagram; oracle: target bytes == client bytes, dialled once, host from the bytes / port unchanged, banner comes back intact. distinct = distinct op line; non-trivial = the 3-byte probe completed (TCP) or the header "
             "parser accepted the datagram so that UnProtect is reached (UDP)",
     "trusted_base": [
         "net/http.ReadRequest behind bufio+io.LimitReader is an arbitrary sequence of Read calls whose first asks for >= 3 bytes "
@@ -31,8 +37,9 @@ CFG = {
         "extracted CRYPTO payload, panic) with the parsers'/crypto's recorded behaviour passed to the model, and by regenerated constants",
         "the returned replay slice is owned by the call: a Go-level aliasing hazard outside the value model, tied only by the harness op "
         "`two` and the regenerated go/ast facts of const_no_shared_buffer (no package-level variable, no sync import, no buffer field on Sniffer)",
-        "the server writes the replay bytes to the target before relaying and forwards the very slice it handed to the UDP hook "
-        "(core/server/server.go:281-325, udp.go:96-121,316-328) - read, not modelled",
+        "the server's composition (core/server/server.go hook branch, core/server/udp.go Feed/initConn) is modelled in "
+        "Hy.Model.SniffServer assuming the dial succeeds, tConn.Write(putback) accepts all of it and the relay delivers the unread "
+        "remainder in order (C06); tied by the end-to-end stream `sniffe2e` on target bytes, dial address and response count",
     ],
     "assumptions": [
         "stream = list of chunks delivered by the transport; an empty chunk is a (0, nil) read; after the deadline fires every Read "
@@ -45,7 +52,7 @@ CFG = {
 }
 
 MANIFEST = {
-    "text": "Proof: 21 Lean theorems over executable models of Sniffer.TCP (3-byte probe, tee reader under an ARBITRARY HTTP parser, "
+    "text": "Proof: 25 Lean theorems over executable models of Sniffer.TCP (3-byte probe, tee reader under an ARBITRARY HTTP parser, "
             "TLS record arithmetic, early returns, SplitHostPort/JoinHostPort rewriting) and of the QUIC sniffer chain "
             "(parseLongHeader, ReadCryptoPayload, UnProtect with the packet buffer threaded through as a value, extractCryptoFrames, "
             "assembleCryptoFrames, Sniffer.UDP) in a result type where every Go index/slice can panic explicitly: replay ++ unread = sent "
